@@ -27,7 +27,11 @@ fn ctx() -> &'static Ctx {
         let mut pair = None;
         for p in ps {
             match p {
-                Part::Hist(h) if hist.is_none() && !h.set_mode => hist = Some(h),
+                Part::Hist(mut h) if hist.is_none() && !h.set_mode => {
+                    // keep an execution cheap: the neighbour query set instead of all 511 prefixes
+                    h.full_queries = false;
+                    hist = Some(h)
+                }
                 Part::Pair(p) if pair.is_none() => pair = Some(p),
                 _ => {}
             }
@@ -97,4 +101,77 @@ pub fn replay_bytes(id: &str, target: &str, path: &str) -> i32 {
             1
         }
     }
+}
+
+/// Thorough-tier campaign: `cargo +nightly fuzz run` on a fresh, seeded corpus with fixed work.
+pub fn run_campaign(id: &str, target: &str, runs: u64, seed: u64) -> Outcome {
+    use std::process::Command;
+    let root = verif_root();
+    let mut o = Outcome::default();
+    let corpus = format!("{root}/out/fuzz-corpus/{id}-{target}-{seed}");
+    let _ = std::fs::remove_dir_all(&corpus);
+    if let Err(e) = std::fs::create_dir_all(&corpus) {
+        o.harness_bug = Some(format!("cannot create {corpus}: {e}"));
+        return o;
+    }
+    let art = format!("{root}/out/fuzz-artifacts");
+    let _ = std::fs::create_dir_all(&art);
+    // seed corpus: 48 pseudo-random inputs of 60..300 bytes (libFuzzer ramps lengths slowly from empty)
+    let mut s = crate::ops::splitmix(seed ^ 0xF00D);
+    for i in 0..48 {
+        s = crate::ops::splitmix(s);
+        let len = 60 + (s % 240) as usize;
+        let mut bytes = Vec::with_capacity(len);
+        while bytes.len() < len {
+            s = crate::ops::splitmix(s);
+            bytes.extend_from_slice(&s.to_le_bytes());
+        }
+        bytes.truncate(len);
+        let _ = std::fs::write(format!("{corpus}/seed{i:02}"), &bytes);
+    }
+    let _ = std::fs::copy(format!("{root}/harness/Cargo.lock"), format!("{root}/fuzz/Cargo.lock"));
+    // AddressSanitizer reserves terabytes of address space: lift the soft cap set by the check script
+    let cmd = format!(
+        "ulimit -S -v unlimited 2>/dev/null; exec cargo +nightly fuzz run --fuzz-dir {root}/fuzz {target} {corpus} -- -runs={runs} -seed={} -len_control=0 -max_len=400 -detect_leaks=0 -print_final_stats=1 -artifact_prefix={art}/{id}-{target}-",
+        seed.max(1)
+    );
+    let out = Command::new("bash")
+        .args(["-c", &cmd])
+        .current_dir(format!("{root}/fuzz"))
+        .env("PTV_FUZZ_PROP", id)
+        .env("ASAN_OPTIONS", "detect_leaks=0")
+        .env("PTV_ROOT", &root)
+        .env("CARGO_NET_OFFLINE", "true")
+        .output();
+    let out = match out {
+        Ok(o) => o,
+        Err(e) => {
+            o.harness_bug = Some(format!("cannot run cargo fuzz: {e}"));
+            return o;
+        }
+    };
+    let se = String::from_utf8_lossy(&out.stderr).to_string();
+    let done: u64 = se.lines().find_map(|l| l.strip_prefix("Done ").and_then(|r| r.split(' ').next()).and_then(|n| n.parse().ok())).unwrap_or(0);
+    let executed: u64 = se.lines().find_map(|l| l.strip_prefix("stat::number_of_executed_units:").and_then(|n| n.trim().parse().ok())).unwrap_or(done);
+    let cov: u64 = se.lines().rev().find_map(|l| l.split("cov: ").nth(1).and_then(|r| r.split(' ').next()).and_then(|n| n.parse().ok())).unwrap_or(0);
+    o.evaluations = executed;
+    o.extra.insert(format!("libfuzzer_{target}"), serde_json::json!({"runs_requested": runs, "executed": executed, "coverage_edges": cov, "seed": seed, "corpus": corpus, "note": "coverage-guided campaign on the few-types build (u8, u32, u128, ipnet4, inet6); approximately reproducible, the artifact is the reproducible unit"}));
+    if let Some(path) = se.lines().find_map(|l| l.split("Test unit written to ").nth(1)).map(|s| s.trim().to_string()) {
+        // a crash: classify it by replaying the bytes in-process (strict mode)
+        std::env::set_var("PTV_FUZZ_PROP", id);
+        let data = std::fs::read(&path).unwrap_or_default();
+        let r = if target == "setops" { run_pair_bytes(&data, true) } else { run_ops_bytes(&data, true) };
+        match r {
+            Some((p, sig, msg, case)) => {
+                let replay = write_replay(id, &format!("{id}-fuzz-{target}"), seed, &case, &p, &sig, &msg);
+                o.violation = Some(Violation { prop: p, sig, msg, replay });
+            }
+            None => {
+                o.harness_bug = Some(format!("the fuzz target crashed on {path} but the input does not fail when replayed in-process: {}", se.lines().filter(|l| l.contains("FUZZ-VIOLATION") || l.contains("ERROR") || l.contains("panicked")).take(3).collect::<Vec<_>>().join(" | ")));
+            }
+        }
+    } else if !out.status.success() {
+        o.harness_bug = Some(format!("cargo fuzz failed (status {:?}): {}", out.status.code(), se.lines().rev().take(12).collect::<Vec<_>>().join(" | ")));
+    }
+    o
 }
